@@ -130,7 +130,7 @@ typedef struct hx_verdict { const char *prop; const char *kind; char msg[240]; u
 typedef struct hx_obs {
     int ncalls; hx_call calls[HX_MAXCALLS];
     int ntx; hx_txrec tx[HX_MAXTX]; int tx_overflow;
-    int ncb, nlog;
+    int ncb, nlog; int ncb_side[2];   /* parsing callbacks in total / per direction (request-side, response-side kinds) */
     hx_buf dump;                /* final dump of conn + every tx slot                            */
     hx_buf canon;               /* canonical parser state (only if want_canon)                   */
     hx_buf cbtrace;             /* full callback trace (kind, tx, len, hash), for C19 / replay   */
